@@ -65,6 +65,21 @@ def order_free_messages(g):
     return out
 
 
+BNODE_LABEL = re.compile(r"\b[Nn][0-9a-f]{32}(?:b[0-9]+)?\b")
+
+
+def label_free_messages(g):
+    """a declared sh:message may quote a blank node ({$value}, {$this}): what it then shows is the label the parser gave that
+    node in this load of the file, which no second load repeats (C09: reports differ at most in blank-node labels).  Labels
+    of rdflib's form are replaced by one token, then the wording order is neutralised as well"""
+    out = rdflib.Graph()
+    for s_, p_, o_ in g:
+        if p_ == SH.resultMessage and isinstance(o_, Literal):
+            o_ = Literal(BNODE_LABEL.sub("BNODE", str(o_)), lang=o_.language)
+        out.add((s_, p_, o_))
+    return order_free_messages(out)
+
+
 def collapse_lists(g):
     """every RDF list is replaced by one literal naming its members: graphs that differ only in how often a shared
     list was written become equal"""
@@ -360,7 +375,7 @@ def main(tier, seed, replay=None):
                 conf = [o for o in g1.objects(None, SH.conforms)]
                 same = len(conf) == 1 and bool(conf[0].value) == ref[1] and keys_iso(o1) == keys_iso(ref)
                 if same and fmt != "json-ld":
-                    same = isomorphic(ref[4], g1)
+                    same = isomorphic(ref[4], g1) or isomorphic(label_free_messages(ref[4]), label_free_messages(g1))
                 if not same and fmt in ("turtle", "n3", "json-ld") and KNOWN_NATIVE in known:
                     if fmt != "json-ld" and KNOWN_LISTS in known and only_extra_list_cells(ref[4], g1):
                         rep.known_finding(KNOWN_LISTS, LISTS_WHAT)
